@@ -599,6 +599,30 @@ pub fn enumerate(tier: Tier) -> Vec<Case> {
         cases.push(Case { name: "copy/free-wire-nonzero".into(), lay: lay2, asg: a });
     }
 
+    // --- 3b. a LONG copy class (the ZERO witness on every wire of 300 / 600 filler rows:
+    // 1200 / 2400 positions) split in two at every position: the tail is carried by one
+    // other witness holding 9. Every row holds; the compiled copy constraint does not.
+    {
+        let fillers: Vec<usize> = tier.pick(vec![300], vec![300, 600]);
+        for f in fillers {
+            let lay = Layout { rows: vec![RowSpec::zero(), RowSpec::zero()], share: vec![], place: Place::After(f) };
+            let slots = f * 4;
+            let from: Vec<usize> = match tier {
+                Tier::Quick => (1..slots).filter(|s| (*s >= 960 && *s <= 1040) || s % 97 == 0).collect(),
+                Tier::Thorough => (1..slots).collect(),
+            };
+            for s0 in from {
+                let mut a = zero_assign(&lay);
+                a.filler_split = Some((s0, fe(9)));
+                cases.push(Case { name: format!("long-class-split/filler{}/from{}", f, s0), lay: lay.clone(), asg: a });
+            }
+            // control: the tail carried by another witness that also holds zero is fine
+            let mut a = zero_assign(&lay);
+            a.filler_split = Some((slots / 2, zero()));
+            cases.push(Case { name: format!("long-class-split/filler{}/equal-value-control", f), lay: lay.clone(), asg: a });
+        }
+    }
+
     // --- 4. size mismatch --------------------------------------------------------
     {
         let lay = block_layout(vec![merged_row(&[Fam::Range]), RowSpec::zero()], Place::First);
@@ -656,8 +680,8 @@ pub fn run_case(cache: &KeyCache, c: &Case) -> Outcome {
 
 pub fn main(tier: Tier, replay: Option<serde_json::Value>) -> i32 {
     let mut run = Run::new("C05", tier, "model_checking");
-    run.rule = "cases = raw-row layouts (arithmetic selector tuples; custom-gate families alone, pairwise and all at once; first / middle / last-row-of-full-domain placement) x assignments (constructed satisfying, every single-wire perturbation, copy-constraint breaks, size mismatches; instances emitting other selectors than the compiled description; base cases again inside worker pools of other sizes); every case is decided by the row model M1 and executed on the real prover+verifier; non-trivial = distinct (layout, assignment) whose M1 verdict was compared with the real outcome".into();
-    let pp = crate::setup::pp(64);
+    run.rule = "cases = raw-row layouts (arithmetic selector tuples; custom-gate families alone, pairwise and all at once; first / middle / last-row-of-full-domain placement) x assignments (constructed satisfying, every single-wire perturbation, copy-constraint breaks, size mismatches; instances emitting other selectors than the compiled description; base cases again inside worker pools of other sizes; a copy class of 1200 / 2400 positions split at every position); every case is decided by the row model M1 and executed on the real prover+verifier; non-trivial = distinct (layout, assignment) whose M1 verdict was compared with the real outcome".into();
+    let pp = crate::setup::pp(1 << 10);
     let cache = KeyCache::new(pp, b"c05");
     let cases = enumerate(tier);
     if let Some(r) = replay {
